@@ -56,6 +56,7 @@ def base_env():
     env = {k: getattr(specbuiltins, k) for k in specbuiltins.__all__}
     env.update(contracts.SPECFNS)
     env.update(contracts.SPECPREDS)
+    env.update(contracts.NATIVE_HELPERS)
     from . import ntrace
     ntrace.install()
     env.update(ntrace.accessors())
